@@ -88,8 +88,43 @@ def tail_unit(kf):
     return u
 
 
-UNITS = {'c03_option_resolve': (['C03'], option_unit), 'c03_execute_once_tail': (['C03'], tail_unit)}
-SEARCH = {'c03_option_resolve': ['c03_errors'], 'c03_execute_once_tail': ['c03_errors']}
+WEAK_SHIMS = r'''
+// std::sync::Weak<T>: upgrade() yields the live value or None (Arc<T> is a transparent OutputType wrapper: R-ty)
+pub struct Weak<T> { pub live: Option<T> }
+impl<T> Weak<T> { pub fn upgrade(&self) -> (r: &Option<T>) ensures *r == self.live { &self.live } }
+'''
+
+
+def weak_unit(kf):
+    u = Unit('c03_weak_resolve', ['C03'], 'Weak<T> is a nullable position like Option<T>: a dangling weak is null, an error below a live weak is absorbed and recorded once')
+    u.kf = kf
+    u.trusted(SHIMS, 'context / OutputType shims (await-erased)')
+    u.trusted(WEAK_SHIMS, 'Weak shim')
+    opt_ens = lambda this: [f'{this} is None ==> (r == Ok::<Value, ServerError>(Value::Null) && final(ctx).errors@ == old(ctx).errors@)',
+                            f'{this} is Some && {this}->Some_0.spec_resolve(field.node) is Ok ==> (r == {this}->Some_0.spec_resolve(field.node) && final(ctx).errors@ == old(ctx).errors@)',
+                            f'{this} is Some && {this}->Some_0.spec_resolve(field.node) is Err ==> (r == Ok::<Value, ServerError>(Value::Null) '
+                            f'&& final(ctx).errors@ == old(ctx).errors@.push({this}->Some_0.spec_resolve(field.node)->Err_0))   // nulled here, reported once, not propagated']
+    # Option<T>::resolve: proved in c03_option_resolve; here only its contract (modular)
+    u.trusted('''
+#[verifier::external_body]
+fn option_resolve<T: OutputType>(this: &Option<T>, ctx: &mut ContextSelectionSet, field: &Positioned<Field>) -> (r: ServerResult<Value>)
+    ensures
+        ''' + ',\n        '.join(c.split('   //')[0] for c in opt_ens('this')) + '''
+{ unimplemented!() }''', 'Option<T>::resolve contract (proved in c03_option_resolve)')
+    u.extract_fn('src/base.rs', ['impl<T: OutputType + ?Sized> OutputType for Weak<T>', 'fn resolve'], name='weak_resolve',
+                 label='src/base.rs::impl OutputType for Weak<T>::fn resolve',
+                 sig_rewrites=[AwaitErase(), ReSub(r'fn resolve\(', 'fn resolve<T: OutputType>('), ReSub(r'&self', 'this: &Weak<T>'),
+                               ReSub(r"&ContextSelectionSet<'_>", '&mut ContextSelectionSet')],
+                 rewrites=[AwaitErase(), Sub('self.upgrade().resolve(ctx, field)', 'option_resolve(this.upgrade(), ctx, field)', count='*', rule='R-self'),
+                           Sub('self.upgrade()', 'this.upgrade()', count='*', rule='R-self')],
+                 ensures=opt_ens('this.live'))
+    u.assume('Weak<T> / Arc<T> represented by the (possibly absent) target value (R-ty); Option<T>::resolve is used through its contract (proved in c03_option_resolve)')
+    u.search_case('base.rs', 'c03_errors')
+    return u
+
+
+UNITS = {'c03_option_resolve': (['C03'], option_unit), 'c03_execute_once_tail': (['C03'], tail_unit), 'c03_weak_resolve': (['C03'], weak_unit)}
+SEARCH = {'c03_option_resolve': ['c03_errors'], 'c03_execute_once_tail': ['c03_errors'], 'c03_weak_resolve': ['c03_errors']}
 BOUNDED = {'C03': [dict(case='c03_errors', function='error capture through src/resolver_utils/{container,list}.rs, src/types/external/optional.rs, src/dynamic/resolve.rs (static and dynamic schemas, through Schema::execute)',
                         bound='~40 queries over one static and one dynamic schema whose resolvers fail at chosen positions (nullable / non-null fields, nested objects, list items); response data, error count and error paths compared with the GraphQL spec\'s error propagation',
                         why='the executor is async over dyn Future / try_join_all and derive-generated resolve_field; only the Option<T> absorption kernel is under contract')]}
